@@ -635,7 +635,20 @@ evaluate() const {
           return Result(r1.as_boolean());
 
         } else if (stype->_type == CPPSimpleType::T_int) {
-          return Result(r1.as_integer());
+          // T_int also stands for short, long and the unsigned variants.
+          int value = r1.as_integer();
+          if (stype->_flags & CPPSimpleType::F_short) {
+            if (stype->_flags & CPPSimpleType::F_unsigned) {
+              return Result((int)(unsigned short)value);
+            } else {
+              return Result((int)(short)value);
+            }
+          }
+          if ((stype->_flags & CPPSimpleType::F_unsigned) != 0 && value < 0) {
+            // The result does not fit in the int we evaluate with.
+            return Result();
+          }
+          return Result(value);
 
         } else if (stype->_type == CPPSimpleType::T_float ||
                    stype->_type == CPPSimpleType::T_double) {
